@@ -161,9 +161,13 @@ def check_sort(nl, case, ctx=None):
 
 # ---- lexicographic sequences / incomparable kinds ---------------------------------------------------
 
-def model_cmp(a, b):
-    """-1/0/1, or None when the comparison must raise."""
+def model_cmp(a, b, top=True):
+    """-1/0/1, or None when the comparison must raise, or "either" where nothing is asserted."""
     ka, kb = kind(a), kind(b)
+    if ka == "null" and kb == "null":
+        # equal values of the same kind: inside sequences they compare equal; at top level the
+        # operators refuse null altogether. Neither is an "arbitrary answer"; top level not asserted.
+        return "either" if top else 0
     num = ("int", "rational", "float")
     if ka in num and kb in num:
         return real_cmp(a, b)
@@ -176,7 +180,7 @@ def model_cmp(a, b):
         xs = a.xs if ka == "vector" else a
         ys = b.xs if kb == "vector" else b
         for x, y in zip(xs, ys):
-            c = model_cmp(x, y)
+            c = model_cmp(x, y, top=False)
             if c is None:
                 return None
             if c != 0:
@@ -222,7 +226,9 @@ def check_lex(nl, cases, ctx=None):
             return {"i": str(int(x))}
         eq = model_eq(a, b)
         want = [I(eq), I(not eq)]
-        if cm is None:
+        if cm == "either":
+            want += out[2:8]
+        elif cm is None:
             want += [E] * 6
         else:
             want += [I(cm < 0), I(cm <= 0), I(cm > 0), I(cm >= 0), I(cm), I(-cm)]
